@@ -15,8 +15,12 @@ def run(ctx):
         # random interleavings for true concurrency: 6 connections, each driven by its own goroutine
         sim = ctx.tlc("MC_C13", "MC_C13_sim.cfg", name="MC_C13_sim", workers=1, timeout=1200,
                       simulate="num=%d" % (1500 if thorough else 60), depth=121)
-        scenarios = [json.loads(s) for s in mc.scenarios + sim.scenarios]
-        nmodel, nsim = len(mc.scenarios), len(sim.scenarios)
+        model_sc = mc.scenarios
+        if len(model_sc) > 60000:     # thorough: every history is explored by TLC; a seeded sample of 60000 is replayed
+            import random
+            model_sc = random.Random(ctx.seed).sample(model_sc, 60000)
+        scenarios = [json.loads(s) for s in model_sc + sim.scenarios]
+        nmodel, nsim = len(model_sc), len(sim.scenarios)
         if nsim == 0:
             raise vlib.Inconclusive("TLC simulation exported no concurrent scenario")
     ctx.stage("generate")
